@@ -124,6 +124,19 @@ def reference_main():
             status, so, se = run_cli([inp, outp] + args)
             data = open(outp, "rb").read() if os.path.exists(outp) else b""
             out[name] = dict(sha=hashlib.sha256(data).hexdigest() + ":%s" % status, n=len(data), cells=None, header=data[:600].decode("latin1"), energies=[])
+        # the models the repository ships, as they stand, through the command line; each twice in this process
+        import glob
+        for path in sorted(glob.glob(os.path.join(boot.REPO, "**", "*.aspot"), recursive=True)):
+            rel = os.path.relpath(path, boot.REPO)
+            shas = []
+            for rep in (1, 2):
+                outp = os.path.join(d, "shipped.out")
+                if os.path.exists(outp):
+                    os.remove(outp)
+                status, so, se = run_cli([path, outp])
+                data = open(outp, "rb").read() if os.path.exists(outp) else b""
+                shas.append(hashlib.sha256(data).hexdigest() + ":%s" % status)
+            out["shipped:" + rel] = dict(sha=shas[0], n=len(data), cells=None, header=data[:600].decode("latin1"), energies=[], twice=shas[0] == shas[1])
     finally:
         shutil.rmtree(d, ignore_errors=True)
     json.dump(out, sys.stdout)
@@ -223,6 +236,9 @@ def main(prop, tier, seed):
                         first = next(("line %d: %r vs %r" % (i + 1, x, y) for i, (x, y) in enumerate(zip(a, b)) if x != y), "")
                     run.violation(dict(engine="session", clause="hash-seed", excel=excel, same_cells=same_cells, model=key.split(":")[0]),
                                   "[hash-seed] output %s differs between PYTHONHASHSEED=%d and %d %s%s" % (key, seeds[0], hs, first, " (cells equal)" if same_cells else ""), dict(key=key))
+                if v.get("twice") is False and hs == seeds[1]:
+                    run.violation(dict(engine="session", clause="output-differs", excel=False, same_cells=False, model=key),
+                                  "[output-differs] %s tabulated twice in one process gives different bytes" % key, dict(key=key))
                 if v["energies"] != base[key]["energies"]:
                     run.violation(dict(engine="session", clause="hash-seed-energy", excel=excel, same_cells=False, model=key.split(":")[0]),
                                   "[hash-seed] energies of %s differ between PYTHONHASHSEED=%d and %d" % (key, seeds[0], hs), dict(key=key))
@@ -251,7 +267,7 @@ def main(prop, tier, seed):
                 run.distinct(json.dumps(h))
         run.sample(dict(history=hist[len(hist) // 2], models={k: v["targets"] for k, v in MODELS.items()}))
         run.sample(dict(model_1=MODELS[1]["text"]))
-        run.rule = "cases = 4 models x targets in fresh processes under 4/8 hash seeds + every history of <= 4 build/write/eval operations over 3 models (TLC) in one process; non-trivial = history of >= 2 operations; distinct by history"
+        run.rule = "cases = 4 models x targets, 4 command lines with edits / filters and the 22 shipped potable files (each twice) in fresh processes under 4/8 hash seeds + every history of <= 4 build/write/eval operations over 3 models (TLC) in one process; non-trivial = history of >= 2 operations; distinct by history"
     except tlc.TLCError as e:
         run.machinery(str(e))
     return run.finish()
